@@ -150,4 +150,62 @@ DriftExprParse(e) ==
      /\ Len(e.order) = Len(e.p.items) /\ ExprModelApplies(e.p)
      /\ ToNamed(e.r) # ExprReaderModel(e.p, e.order, Range(e.idents))
   THEN {"DRIFT:parsed_circuit_differs_from_expression_reader_model"} ELSE {}
+
+(* ---- the behavioural form of the writer: one assign per gate with operands (operands in index order here; the real
+   writer's order is that of a Python set) ---- *)
+RECURSIVE JoinOps(_,_,_,_)
+JoinOps(c, fi, q, op) == IF q > Len(fi) THEN <<>> ELSE <<"$" \o c.names[fi[q]]>> \o (IF q = 1 THEN <<>> ELSE <<op>>) \o JoinOps(c, fi, q + 1, op)
+BehItem(c, i) ==
+  LET t == c.ty[i]  fi == c.fi[i]
+      op == CASE t \in {"and", "nand"} -> "&" [] t \in {"or", "nor"} -> "|" [] t \in {"xor", "xnor"} -> "^" [] OTHER -> ""
+  IN IF t \in Consts THEN << [k |-> "assign", lhs |-> c.names[i], rhs |-> <<t>>] >>
+     ELSE IF t \notin Gates \/ Len(fi) = 0 \/ (i \in BBLoads(c) /\ \A j \in Range(fi) : c.ty[j] = "bb_output") THEN <<>>
+     ELSE IF t = "buf" THEN << [k |-> "assign", lhs |-> c.names[i], rhs |-> <<"$" \o c.names[fi[1]]>>] >>
+     ELSE IF t = "not" THEN << [k |-> "assign", lhs |-> c.names[i], rhs |-> <<"$" \o c.names[fi[1]], "~">>] >>
+     ELSE << [k |-> "assign", lhs |-> c.names[i], rhs |-> JoinOps(c, fi, 1, op) \o (IF t \in {"nand", "nor", "xnor"} THEN <<"~">> ELSE <<>>)] >>
+WriterProgramB(c) ==
+  LET RECURSIVE Items(_)
+      Items(i) == IF i > c.n THEN <<>> ELSE BehItem(c, i) \o Items(i + 1)
+      p == WriterProgram(c)
+  IN [p EXCEPT !.items = [b \in 1..Len(c.bbs) |-> BBItem(c, b)] \o Items(1)]
+
+(* ---- binding of the writer model to the text the real writer produced: e.wp is the abstract syntax of that text (items in
+   text order, read by the harness), e.idents its identifiers.  (1) the text says what WriterProgram(c) says - compared as
+   sets, the writer iterates over Python sets; behavioural form: one assign per gate with operands, `~( )` for the
+   inverting types, a single operand written bare; (2) the circuit read back is what the reader machine builds from it. *)
+NormItem(it) ==
+  IF it.k = "gate" THEN [k |-> "g", out |-> it.out, t |-> it.t, ins |-> {it.ins[q] : q \in 1..Len(it.ins)}, n |-> Len(it.ins)]
+  ELSE IF it.k = "assign" THEN
+       LET ex == it.rhs
+           ops == {ex[q] : q \in {x \in 1..Len(ex) : ex[x] \in {"&", "|", "^"}}}
+           neg == ex[Len(ex)] = "~"
+           opnds == {<<ex[q]>> : q \in {x \in 1..Len(ex) : IsId(ex[x]) \/ ex[x] \in Consts}}
+           cnt == Cardinality({x \in 1..Len(ex) : IsId(ex[x]) \/ ex[x] \in Consts})
+       IN IF Len(ex) = 1 /\ ex[1] \in Consts THEN [k |-> "g", out |-> it.lhs, t |-> ex[1], ins |-> {}, n |-> 0]
+          ELSE [k |-> "g", out |-> it.lhs,
+                t |-> CASE ops = {"&"} -> (IF neg THEN "nand" ELSE "and") [] ops = {"|"} -> (IF neg THEN "nor" ELSE "or")
+                        [] ops = {"^"} -> (IF neg THEN "xnor" ELSE "xor") [] ops = {} -> (IF neg THEN "not" ELSE "buf")
+                        [] OTHER -> "?",
+                ins |-> opnds, n |-> cnt]
+  ELSE [k |-> "b", type |-> it.type, inst |-> it.inst, conns |-> {it.conns[q] : q \in 1..Len(it.conns)}]
+ExpectedItems(c, behavioral) ==
+  LET p == WriterProgram(c) IN
+  {LET it == p.items[j]
+       n0 == NormItem(it)
+   IN IF ~behavioral \/ it.k # "gate" THEN n0
+      ELSE IF n0.n = 1 THEN [n0 EXCEPT !.t = IF it.t \in {"buf", "and", "or", "xor"} THEN "buf" ELSE "not"] ELSE n0
+   : j \in 1..Len(p.items)}
+WriterAgrees(c, wp, behavioral) ==
+  /\ Range(wp.inputs) = InputNames(c) /\ Len(wp.inputs) = Cardinality(InputNames(c))
+  /\ Range(wp.outputs) = OutputNames(c) /\ Len(wp.outputs) = Cardinality(OutputNames(c))
+  /\ wp.ports = wp.inputs \o wp.outputs
+  /\ Range(wp.wires) = NamesOf(c, OfType(c, Gates \cup Consts)) /\ Len(wp.wires) = Cardinality(OfType(c, Gates \cup Consts))
+  /\ {NormItem(wp.items[j]) : j \in 1..Len(wp.items)} = ExpectedItems(c, behavioral)
+  /\ Len(wp.items) = Cardinality(ExpectedItems(c, behavioral))
+DriftWriter(e) ==
+  IF "wp" \in DOMAIN e /\ e.exc = "" /\ WellFormedRec(e.c) /\ WellFormedRec(e.c2) /\ e.c.n <= 16 /\ NoTieNames(NameSet(e.c))
+  THEN (IF WriterAgrees(e.c, e.wp, e.behavioral) THEN {} ELSE {"DRIFT:written_text_differs_from_writer_model"})
+       \cup (IF ExprModelApplies(e.wp) /\ ToNamed(e.c2) # ExprReaderModel(e.wp, [q \in 1..Len(e.wp.items) |-> q], Range(e.idents))
+             THEN {"DRIFT:circuit_read_back_differs_from_expression_reader_model"} ELSE {})
+  ELSE {}
 =============================================================================
